@@ -1,4 +1,5 @@
 import Proofs.Lifecycle
+import Proofs.Backoff
 import PikoModel.Generated.Facts
 /-!
 # C18 — Losing a node: traffic is withdrawn from it and recovers on the survivors
@@ -363,5 +364,582 @@ example : acceptDecision false false .netClosed = .reconnect ∧
     acceptDecision true false .other = .ctxErr ∧
     acceptOutcome false true false .other = .connectErr ∧
     acceptOutcome false false true .netClosed = .errClosed := by decide
+
+/-! ## Reconnecting with exponential backoff (`pkg/backoff`, `Upstream.connect`, `JoinOnStartup`)
+
+Model: `PikoModel/Node/Backoff.lean`; lemmas: `Proofs/Backoff.lean`; correspondence engine
+`backoff` (real `backoff.Backoff` with a seeded jitter, real `Upstream.connect` against a scripted
+server).  Durations are nanoseconds.  `Backoff.step s w` is one `Backoff()` call in state `s`
+whose jitter produced the wait `w`; `Backoff.base s` is the un-jittered wait, `Backoff.hi b =
+b + b/10 + 1` the largest wait the jitter can make of `b`. -/
+
+/-- **The window of one wait.**  When a `Backoff()` call in state `s` is granted the wait `w`:
+the state records `w` as the last wait and counts the grant; `w` lies between the un-jittered
+value `base s` and `hi (base s)` (at most 10 % more, `+1` for float rounding); the
+un-jittered value never exceeds `maxBackoff`, so `w ≤ hi max`; the first wait (`lastBackoff = 0`)
+starts from `minBackoff`, every later one from **twice the previous wait**, both capped at
+`maxBackoff`; and conversely every value of that window is a possible wait.  With a sane
+configuration (`0 < min ≤ max`, `Inv`: the stored wait is `0` or `≥ min`, true of every state
+reached from `New`) the un-jittered value - hence the wait - is never below `minBackoff`, the
+next un-jittered value is `min (2·w) max` and is not smaller than this one. -/
+theorem C18_backoff_window (s : Backoff.St) (w : Nat) :
+    (∀ w' s', Backoff.step s w = .retry w' s' →
+      w' = w ∧ s' = { s with attempts := s.attempts + 1, last := w } ∧
+      Backoff.base s ≤ w ∧ w ≤ Backoff.hi (Backoff.base s) ∧ w ≤ Backoff.hi s.max) ∧
+    Backoff.base s ≤ s.max ∧
+    (s.last = 0 → Backoff.base s = Min.min s.min s.max) ∧
+    (s.last ≠ 0 → Backoff.base s = Min.min (2 * s.last) s.max) ∧
+    (Backoff.exhausted s = false →
+      (Backoff.step s w = .retry w { s with attempts := s.attempts + 1, last := w } ↔
+        Backoff.base s ≤ w ∧ w ≤ Backoff.hi (Backoff.base s))) ∧
+    (Backoff.Inv s → 0 < s.min → s.min ≤ s.max →
+      s.min ≤ Backoff.base s ∧
+      ∀ w' s', Backoff.step s w = .retry w' s' →
+        s.min ≤ w ∧ Backoff.Inv s' ∧ Backoff.base s' = Min.min (2 * w) s.max ∧
+        Backoff.base s ≤ Backoff.base s') := by
+  refine ⟨?_, Backoff.base_le_max s, ?_, ?_, ?_, ?_⟩
+  · intro w' s' h
+    obtain ⟨_, h2, h3, h4⟩ := (Backoff.step_retry s w w' s').mp h
+    rw [Backoff.okWait_iff] at h2
+    exact ⟨h3, h4, h2.1, h2.2, Nat.le_trans h2.2 (Backoff.hi_mono (Backoff.base_le_max s))⟩
+  · intro h; simp [Backoff.base, h]
+  · intro h; simp [Backoff.base, h]
+  · intro hex
+    constructor
+    · intro h
+      have := ((Backoff.step_retry s w w _).mp h).2.1
+      exact (Backoff.okWait_iff s w).mp this
+    · intro h
+      exact Backoff.step_of_ok s w hex ((Backoff.okWait_iff s w).mpr h)
+  · intro hinv hmin hle
+    have hb := Backoff.min_le_base s hinv hle
+    refine ⟨hb, ?_⟩
+    intro w' s' h
+    obtain ⟨_, h2, _, h4⟩ := (Backoff.step_retry s w w' s').mp h
+    have h2' := (Backoff.okWait_iff s w).mp h2
+    have hw : s.min ≤ w := Nat.le_trans hb h2'.1
+    subst h4
+    refine ⟨hw, Or.inr hw, ?_, (Backoff.base_step s w hinv hmin hle h2).1⟩
+    have hw0 : w ≠ 0 := by omega
+    simp [Backoff.base, hw0]
+
+/-- **Exponential growth up to the cap.**  Along any run of granted waits `ws` from a state `s`
+with `0 < min ≤ max` (and `Inv s`, e.g. a fresh `New`), ending in `s'`:
+
+* every wait is within `[min, hi max]`;
+* the un-jittered value is non-decreasing along the run (for every split of the run) and never
+  exceeds `max`;
+* after `k` waits it is at least `base s · 2^k` capped at `max`, and the `k`-th wait itself
+  (0-based) is at least that: the backoff at least doubles until it reaches the cap;
+* hence once `max ≤ min · 2^k` - that is from the wait number `⌈log2 (max/min)⌉ + 1` on - every
+  wait is within `[max, hi max]`, and the un-jittered value equals `max` from then on. -/
+theorem C18_backoff_growth (s s' : Backoff.St) (ws : List Nat) (hinv : Backoff.Inv s)
+    (hmin : 0 < s.min) (hle : s.min ≤ s.max) (h : Backoff.runWaits s ws = some s') :
+    (∀ w ∈ ws, s.min ≤ w ∧ w ≤ Backoff.hi s.max) ∧
+    (∀ ws1 ws2, ws = ws1 ++ ws2 → ∃ s1, Backoff.runWaits s ws1 = some s1 ∧
+      Backoff.runWaits s1 ws2 = some s' ∧
+      Backoff.base s ≤ Backoff.base s1 ∧ Backoff.base s1 ≤ Backoff.base s' ∧
+      Backoff.base s' ≤ s.max) ∧
+    Min.min s.max (Backoff.base s * 2 ^ ws.length) ≤ Backoff.base s' ∧
+    (∀ k w, ws[k]? = some w → Min.min s.max (Backoff.base s * 2 ^ k) ≤ w) ∧
+    (∀ k w, ws[k]? = some w → s.max ≤ s.min * 2 ^ k → s.max ≤ w ∧ w ≤ Backoff.hi s.max) ∧
+    (s.max ≤ s.min * 2 ^ ws.length → Backoff.base s' = s.max) := by
+  have hb := Backoff.min_le_base s hinv hle
+  have hL : Min.min s.max (Backoff.base s) ≤ Backoff.base s := Nat.min_le_right _ _
+  have hup := Backoff.runWaits_le s s' ws h
+  have hlo := (Backoff.runWaits_ge s s' ws hinv hle h).1
+  have hpar := Backoff.runWaits_params s s' ws h
+  have hgrow := Backoff.runWaits_base_growth s s' ws (Backoff.base s) hinv hmin hle hL h
+  have hnth := Backoff.runWaits_nth_ge s s' ws (Backoff.base s) hinv hmin hle hL h
+  have hmax' : Backoff.base s' ≤ s.max := by
+    have := Backoff.base_le_max s'; rw [hpar.2.2.1] at this; exact this
+  refine ⟨fun w hw => ⟨hlo w hw, hup w hw⟩, ?_, hgrow, hnth, ?_, ?_⟩
+  · intro ws1 ws2 hsplit
+    subst hsplit
+    rw [Backoff.runWaits_append] at h
+    cases h1 : Backoff.runWaits s ws1 with
+    | none => rw [h1] at h; cases h
+    | some s1 =>
+      rw [h1] at h
+      have h2 : Backoff.runWaits s1 ws2 = some s' := h
+      have p1 := Backoff.runWaits_params s s1 ws1 h1
+      have i1 := (Backoff.runWaits_ge s s1 ws1 hinv hle h1).2
+      refine ⟨s1, rfl, h2, Backoff.runWaits_base_mono s s1 ws1 hinv hmin hle h1, ?_, hmax'⟩
+      exact Backoff.runWaits_base_mono s1 s' ws2 i1 (by rw [p1.2.1]; exact hmin)
+        (by rw [p1.2.1, p1.2.2.1]; exact hle) h2
+  · intro k w hk hreach
+    have h1 := hnth k w hk
+    have h2 : s.min * 2 ^ k ≤ Backoff.base s * 2 ^ k := Nat.mul_le_mul_right _ hb
+    have hmem : w ∈ ws := List.mem_of_getElem? hk
+    exact ⟨by omega, hup w hmem⟩
+  · intro hreach
+    have h2 : s.min * 2 ^ ws.length ≤ Backoff.base s * 2 ^ ws.length := Nat.mul_le_mul_right _ hb
+    omega
+
+/-- **The retries limit.**  `retries = 0` (the reconnect loop of the client): no call ever
+aborts, whatever waits are proposed and however many calls are made, and a granted run of every
+length exists.  `retries = n > 0` from `New`: a granted run has at most `n + 1` waits; up to `n`
+grants the guard is still open, so exactly `n + 1` calls are granted (such a run exists); after
+`n + 1` grants **every** later call aborts, for ever, and an aborting call leaves the state
+unchanged (it returns `(0, false)` without counting). -/
+theorem C18_backoff_retries :
+    (∀ (s : Backoff.St), s.retries = 0 →
+      (∀ ws, Backoff.Outcome.abort ∉ Backoff.outcomes s ws) ∧
+      (∀ w, Backoff.step s w ≠ .abort) ∧
+      (∀ k, ∃ s', Backoff.runWaits s (Backoff.baseRun s k) = some s' ∧
+        (Backoff.baseRun s k).length = k)) ∧
+    (∀ (n mn mx : Nat), 0 < n →
+      (∀ ws s', Backoff.runWaits (Backoff.new n mn mx) ws = some s' →
+        ws.length ≤ n + 1 ∧ s'.attempts = ws.length ∧
+        (ws.length ≤ n → Backoff.exhausted s' = false) ∧
+        (ws.length = n + 1 →
+          Backoff.exhausted s' = true ∧
+          (∀ w, Backoff.step s' w = .abort ∧ Backoff.stepSt s' w = s') ∧
+          (∀ ws2, ∀ o ∈ Backoff.outcomes s' ws2, o = Backoff.Outcome.abort))) ∧
+      (∃ s', Backoff.runWaits (Backoff.new n mn mx) (Backoff.baseRun (Backoff.new n mn mx) (n + 1)) = some s' ∧
+        (Backoff.baseRun (Backoff.new n mn mx) (n + 1)).length = n + 1)) := by
+  constructor
+  · intro s h
+    refine ⟨Backoff.outcomes_no_abort s h, ?_, ?_⟩
+    · intro w e
+      have := (Backoff.step_abort s w).mp e
+      rw [Backoff.exhausted_of_retries_zero s h] at this
+      cases this
+    · intro k
+      obtain ⟨s', hs'⟩ := Backoff.runWaits_baseRun s k (Or.inl h)
+      exact ⟨s', hs', Backoff.length_baseRun s k⟩
+  · intro n mn mx hn
+    constructor
+    · intro ws s' h
+      obtain ⟨p1, _, _, p4⟩ := Backoff.runWaits_params _ s' ws h
+      have p1' : s'.retries = n := p1
+      have p4' : s'.attempts = ws.length := by rw [p4]; show 0 + ws.length = ws.length; omega
+      have hlen : ws.length ≤ n + 1 := by
+        by_cases hne : ws = []
+        · subst hne; simp
+        · have := Backoff.runWaits_length_le (Backoff.new n mn mx) s' ws
+            (by show n ≠ 0; omega) hne h
+          have e : (Backoff.new n mn mx).attempts = 0 := rfl
+          have e2 : (Backoff.new n mn mx).retries = n := rfl
+          rw [e, e2] at this; omega
+      refine ⟨hlen, p4', ?_, ?_⟩
+      · intro hle
+        cases hx : Backoff.exhausted s' with
+        | false => rfl
+        | true => rw [Backoff.exhausted_iff] at hx; omega
+      · intro heq
+        have hex : Backoff.exhausted s' = true := by rw [Backoff.exhausted_iff]; omega
+        exact ⟨hex, fun w => ⟨(Backoff.step_abort s' w).mpr hex, Backoff.stepSt_abort s' w hex⟩,
+          Backoff.outcomes_all_abort s' hex⟩
+    · obtain ⟨s', hs'⟩ := Backoff.runWaits_baseRun (Backoff.new n mn mx) (n + 1)
+        (Or.inr (by show 0 + (n + 1) ≤ n + 1; omega))
+      exact ⟨s', hs', Backoff.length_baseRun _ _⟩
+
+/-- **A listener that lost its node never gives up.**  `Upstream.connect` creates its backoff
+with `retries = 0`.  If every dial of a list of attempts fails retryably - no HTTP response at
+all (connection refused or reset, TLS failure, timeout), or one of the statuses 408, 429, 500,
+502, 503, 504 - and the caller's context is not cancelled, then after these attempts the loop
+has **not returned**: it made exactly one dial per attempt, started one wait after each, no
+`Backoff()` call answered "abort", and the waits form a granted backoff run from
+`New(0, min, max)`: each within `hi max`, and - when `min ≤ max` - the `k`-th at least
+`min·2^k` capped at `max`. -/
+theorem C18_connect_never_gives_up (c : Backoff.Conf) (as : List Backoff.Attempt)
+    (h : ∀ a ∈ as,
+      (a.dial = .noResponse ∨ ∃ code, code ∈ [408, 429, 500, 502, 503, 504] ∧ a.dial = .status code) ∧
+      a.ctxErr = false ∧ a.cancelInWait = false) :
+    (Backoff.connect c as).result = .stillRetrying ∧
+    (Backoff.connect c as).attempts = as.length ∧
+    (Backoff.connect c as).waits.length = as.length ∧
+    (Backoff.connect c as).aborts = 0 ∧
+    0 < c.min ∧
+    (∃ b', Backoff.runWaits (Backoff.new 0 c.min c.max) (Backoff.connect c as).waits = some b') ∧
+    (∀ w ∈ (Backoff.connect c as).waits, w ≤ Backoff.hi c.max) ∧
+    (c.min ≤ c.max → ∀ k w, (Backoff.connect c as).waits[k]? = some w →
+      Min.min c.max (c.min * 2 ^ k) ≤ w) := by
+  have hret : ∀ a ∈ as, a.retried := by
+    intro a ha
+    obtain ⟨h1, h2, h3⟩ := h a ha
+    exact ⟨(Backoff.classify_retryable_iff a.dial).mpr h1, h2, h3⟩
+  obtain ⟨heq, b', hrun⟩ := Backoff.connectFrom_all_retried (Backoff.new 0 c.min c.max) rfl as hret
+  have heq' : Backoff.connect c as =
+      ⟨.stillRetrying, as.length, Backoff.prefixWaits (Backoff.new 0 c.min c.max) as, 0⟩ := heq
+  have hmin : 0 < c.min := by
+    unfold Backoff.Conf.min Backoff.defaultMinReconnectBackoff
+    split <;> omega
+  rw [heq']
+  refine ⟨rfl, rfl, Backoff.length_prefixWaits _ _, rfl, hmin, ⟨b', hrun⟩, ?_, ?_⟩
+  · exact Backoff.runWaits_le _ b' _ hrun
+  · intro hle k w hk
+    have hb : Backoff.base (Backoff.new 0 c.min c.max) = c.min := by
+      simp [Backoff.base, Backoff.new]; exact Nat.min_eq_left hle
+    have := Backoff.runWaits_nth_ge (Backoff.new 0 c.min c.max) b' _ c.min
+      (Backoff.inv_new _ _ _) hmin hle (by rw [hb]; exact Nat.min_le_right _ _) hrun k w hk
+    exact this
+
+/-- **What `Upstream.connect` returns, and when** (total and exclusive).  Call an attempt
+*retried* when its dial failed retryably, the context was not cancelled when the dial returned,
+and the wait that followed ran to its end.  For every list of attempts:
+
+* the loop is still retrying after them iff all of them were retried;
+* it returns the session iff the first attempt that was not retried is a successful dial;
+* it returns the permanent error `code` iff that attempt is an HTTP response with a status
+  **outside** 408, 429, 500, 502, 503, 504, with the context not cancelled;
+* it returns the context's error iff that attempt is a failed dial (of either class) with the
+  context cancelled when it returned, or a retryable failure whose wait the cancellation cut
+  short;
+* nothing else happens (`badJitter` is unreachable, no `Backoff()` call aborts), and the number
+  of dials is the position of that attempt: nothing is dialled after the loop returned. -/
+theorem C18_connect_outcomes (c : Backoff.Conf) (as : List Backoff.Attempt) :
+    ((Backoff.connect c as).result = .stillRetrying ↔ ∀ a ∈ as, a.retried) ∧
+    ((Backoff.connect c as).result = .connected ↔
+      ∃ fails a rest, as = fails ++ a :: rest ∧ (∀ x ∈ fails, x.retried) ∧ a.dial = .ok) ∧
+    (∀ code, (Backoff.connect c as).result = .errPermanent code ↔
+      ∃ fails a rest, as = fails ++ a :: rest ∧ (∀ x ∈ fails, x.retried) ∧
+        a.dial = .status code ∧ code ∉ [408, 429, 500, 502, 503, 504] ∧ a.ctxErr = false) ∧
+    ((Backoff.connect c as).result = .errCtx ↔
+      ∃ fails a rest, as = fails ++ a :: rest ∧ (∀ x ∈ fails, x.retried) ∧ a.dial ≠ .ok ∧
+        (a.ctxErr = true ∨ (Backoff.classify a.dial = .retryable ∧ a.cancelInWait = true))) ∧
+    (Backoff.connect c as).result ≠ .badJitter ∧
+    (Backoff.connect c as).aborts = 0 ∧
+    (Backoff.connect c as).attempts ≤ as.length ∧
+    (∀ fails a rest, as = fails ++ a :: rest → (∀ x ∈ fails, x.retried) → ¬ a.retried →
+      (Backoff.connect c as).attempts = fails.length + 1) := by
+  have hb : (Backoff.new 0 c.min c.max).retries = 0 := rfl
+  have hfirst : ∀ fails a rest, as = fails ++ a :: rest → (∀ x ∈ fails, x.retried) → ¬ a.retried →
+      (Backoff.connect c as).result = a.verdict ∧
+      (Backoff.connect c as).attempts = fails.length + 1 ∧ (Backoff.connect c as).aborts = 0 := by
+    intro fails a rest e hf ha
+    subst e
+    exact Backoff.connectFrom_first _ hb fails hf a ha rest
+  have hall : (∀ a ∈ as, a.retried) → Backoff.connect c as =
+      ⟨.stillRetrying, as.length, Backoff.prefixWaits (Backoff.new 0 c.min c.max) as, 0⟩ :=
+    fun h => (Backoff.connectFrom_all_retried _ hb as h).1
+  -- the verdict of a decisive attempt, by cases
+  have hv : ∀ a : Backoff.Attempt, ¬ a.retried →
+      (a.verdict = .connected ↔ a.dial = .ok) ∧
+      (∀ code, a.verdict = .errPermanent code ↔
+        a.dial = .status code ∧ code ∉ [408, 429, 500, 502, 503, 504] ∧ a.ctxErr = false) ∧
+      (a.verdict = .errCtx ↔ a.dial ≠ .ok ∧
+        (a.ctxErr = true ∨ (Backoff.classify a.dial = .retryable ∧ a.cancelInWait = true))) ∧
+      a.verdict ≠ .badJitter ∧ a.verdict ≠ .stillRetrying := by
+    intro a ha
+    have hns : a.verdict ≠ .stillRetrying := fun e => ha ((Backoff.verdict_stillRetrying_iff a).mp e)
+    unfold Backoff.Attempt.retried at ha
+    unfold Backoff.Attempt.verdict at hns ⊢
+    cases hc : Backoff.classify a.dial with
+    | connected =>
+      have hd := (Backoff.classify_connected_iff a.dial).mp hc
+      simp [hd]
+    | permanent code =>
+      obtain ⟨hd, hcode⟩ := (Backoff.classify_permanent_iff a.dial code).mp hc
+      have hcode' : code ∉ [408, 429, 500, 502, 503, 504] := hcode
+      cases hx : a.ctxErr
+      · simp only [hd, Bool.false_eq_true, if_false]
+        refine ⟨by simp, ?_, by simp, by simp, by simp⟩
+        intro code'
+        constructor
+        · intro e; cases e; exact ⟨rfl, hcode', trivial⟩
+        · rintro ⟨e, _, _⟩; cases e; rfl
+      · simp only [hd, if_true]
+        refine ⟨by simp, ?_, by simp, by simp, by simp⟩
+        intro code'; simp
+    | retryable =>
+      have hd : a.dial ≠ .ok := by
+        intro e; rw [e] at hc; cases hc
+      have hperm : ∀ code, ¬ (a.dial = .status code ∧ code ∉ [408, 429, 500, 502, 503, 504] ∧ a.ctxErr = false) := by
+        intro code ⟨e, hcode, _⟩
+        have := (Backoff.classify_permanent_iff a.dial code).mpr ⟨e, hcode⟩
+        rw [hc] at this; cases this
+      cases hx : a.ctxErr
+      · cases hw : a.cancelInWait
+        · exact absurd ⟨hc, hx, hw⟩ ha
+        · simp only [Bool.false_or, if_true]
+          refine ⟨by simp [hd], ?_, by simp [hd], by simp, by simp⟩
+          intro code
+          constructor
+          · intro e; cases e
+          · intro e; exact absurd ⟨e.1, e.2.1, hx⟩ (hperm code)
+      · simp only [Bool.true_or, if_true]
+        refine ⟨by simp [hd], ?_, by simp [hd], by simp, by simp⟩
+        intro code
+        constructor
+        · intro e; cases e
+        · rintro ⟨_, _, e⟩; cases e
+  rcases Backoff.attempts_split as with hret | ⟨fails, a, rest, e, hf, ha⟩
+  · -- all retried
+    have heq := hall hret
+    have hno : ¬ ∃ fails a rest, as = fails ++ a :: rest ∧ (∀ x ∈ fails, x.retried) ∧ ¬ a.retried := by
+      rintro ⟨fails, a, rest, e, _, ha⟩
+      exact ha (hret a (by rw [e]; simp))
+    rw [heq]
+    refine ⟨⟨fun _ => hret, fun _ => rfl⟩, ?_, ?_, ?_, by simp, rfl, Nat.le_refl _, ?_⟩
+    · constructor
+      · intro e; cases e
+      · rintro ⟨fails, a, rest, e, hf, hd⟩
+        exact absurd ⟨fails, a, rest, e, hf, fun hr => by
+          have := hr.1; rw [hd] at this; cases this⟩ hno
+    · intro code
+      constructor
+      · intro e; cases e
+      · rintro ⟨fails, a, rest, e, hf, hd, hcode, _⟩
+        exact absurd ⟨fails, a, rest, e, hf, fun hr => by
+          have := hr.1
+          rw [(Backoff.classify_permanent_iff a.dial code).mpr ⟨hd, hcode⟩] at this; cases this⟩ hno
+    · constructor
+      · intro e; cases e
+      · rintro ⟨fails, a, rest, e, hf, _, hd⟩
+        exact absurd ⟨fails, a, rest, e, hf, fun hr => by
+          rcases hd with hd | ⟨_, hd⟩
+          · rw [hr.2.1] at hd; cases hd
+          · rw [hr.2.2] at hd; cases hd⟩ hno
+    · intro fails a rest e _ ha
+      exact absurd (hret a (by rw [e]; simp)) ha
+  · -- a first decisive attempt
+    obtain ⟨hres, hatt, hab⟩ := hfirst fails a rest e hf ha
+    obtain ⟨v1, v2, v3, v4, v5⟩ := hv a ha
+    -- uniqueness of the split
+    have huniq : ∀ fails' a' rest', as = fails' ++ a' :: rest' → (∀ x ∈ fails', x.retried) →
+        ¬ a'.retried → a' = a ∧ fails'.length = fails.length := by
+      intro fails' a' rest' e' hf' ha'
+      have h1 := hfirst fails' a' rest' e' hf' ha'
+      have hl : fails'.length = fails.length := by
+        have := h1.2.1; rw [hatt] at this; omega
+      rw [e] at e'
+      have := List.append_inj e' hl.symm
+      exact ⟨by have := this.2; simp at this; exact this.1.symm, hl⟩
+    refine ⟨?_, ?_, ?_, ?_, by rw [hres]; exact v4, hab, ?_, ?_⟩
+    · rw [hres]
+      constructor
+      · intro e'; exact absurd e' v5
+      · intro hret; exact absurd (hret a (by rw [e]; simp)) ha
+    · rw [hres, v1]
+      constructor
+      · intro hd; exact ⟨fails, a, rest, e, hf, hd⟩
+      · rintro ⟨fails', a', rest', e', hf', hd'⟩
+        have ha' : ¬ a'.retried := fun hr => by have := hr.1; rw [hd'] at this; cases this
+        rw [← (huniq fails' a' rest' e' hf' ha').1]; exact hd'
+    · intro code
+      rw [hres, v2 code]
+      constructor
+      · intro hd; exact ⟨fails, a, rest, e, hf, hd⟩
+      · rintro ⟨fails', a', rest', e', hf', hd', hcode, hx⟩
+        have ha' : ¬ a'.retried := fun hr => by
+          have := hr.1
+          rw [(Backoff.classify_permanent_iff a'.dial code).mpr ⟨hd', hcode⟩] at this; cases this
+        rw [← (huniq fails' a' rest' e' hf' ha').1]; exact ⟨hd', hcode, hx⟩
+    · rw [hres, v3]
+      constructor
+      · intro hd; exact ⟨fails, a, rest, e, hf, hd⟩
+      · rintro ⟨fails', a', rest', e', hf', hd', hx⟩
+        have ha' : ¬ a'.retried := fun hr => by
+          rcases hx with hx | ⟨_, hx⟩
+          · rw [hr.2.1] at hx; cases hx
+          · rw [hr.2.2] at hx; cases hx
+        rw [← (huniq fails' a' rest' e' hf' ha').1]; exact ⟨hd', hx⟩
+    · rw [hatt, e]; simp
+    · intro fails' a' rest' e' hf' ha'
+      rw [hatt, (huniq fails' a' rest' e' hf' ha').2]
+
+/-- **`JoinOnStartup` is bounded.**  With `backoff.New(5, 1 s, 1 min)`:
+
+* whatever happens it calls `gossiper.Join` at most `joinRetries + 2 = 7` times (the guard is
+  `attempts > retries`, tested before the increment: 6 waits are granted, the 7th failed join
+  makes `Backoff()` abort), and never more often than there are attempts to make;
+* it returns the members at the **first** successful join (`k ≤ 6` failed joins before it, one
+  full wait after each);
+* after `7` failed joins it returns an error - the one remembered when the last wait started,
+  i.e. that of join number `joinRetries` (0-based; the error of the 7th join itself is not
+  recorded: `lastErr` is assigned after the abort test) - having waited 6 times;
+* cancelling the context during the wait after the failed join `k ≤ 5` returns that join's error;
+* each wait is within `[1 s, hi 1 min]`, the `k`-th at least `min (1 min) (2^k s)`. -/
+theorem C18_join_bounded (as : List Backoff.JoinAttempt) :
+    (Backoff.joinOnStartup as).attempts ≤ Backoff.joinRetries + 2 ∧
+    (Backoff.joinOnStartup as).attempts ≤ as.length ∧
+    (Backoff.joinOnStartup as).result ≠ .badJitter ∧
+    (∀ fails a rest, as = fails ++ a :: rest → (∀ x ∈ fails, x.ok = false ∧ x.cancelInWait = false) →
+      fails.length ≤ Backoff.joinRetries + 1 →
+      (a.ok = true →
+        (Backoff.joinOnStartup as).result = .joined ∧
+        (Backoff.joinOnStartup as).attempts = fails.length + 1 ∧
+        (Backoff.joinOnStartup as).waits.length = fails.length) ∧
+      (a.ok = false → fails.length = Backoff.joinRetries + 1 →
+        (Backoff.joinOnStartup as).result = .err (some Backoff.joinRetries) ∧
+        (Backoff.joinOnStartup as).attempts = Backoff.joinRetries + 2 ∧
+        (Backoff.joinOnStartup as).waits.length = Backoff.joinRetries + 1) ∧
+      (a.ok = false → fails.length ≤ Backoff.joinRetries → a.cancelInWait = true →
+        (Backoff.joinOnStartup as).result = .err (some fails.length) ∧
+        (Backoff.joinOnStartup as).attempts = fails.length + 1 ∧
+        (Backoff.joinOnStartup as).waits.length = fails.length + 1) ∧
+      (∀ k w, (Backoff.joinOnStartup as).waits[k]? = some w → k < fails.length →
+        Min.min Backoff.joinMaxBackoff (Backoff.joinMinBackoff * 2 ^ k) ≤ w ∧
+        w ≤ Backoff.hi Backoff.joinMaxBackoff)) := by
+  have hb0 : (Backoff.new Backoff.joinRetries Backoff.joinMinBackoff Backoff.joinMaxBackoff).attempts = 0 := rfl
+  have hbr : (Backoff.new Backoff.joinRetries Backoff.joinMinBackoff Backoff.joinMaxBackoff).retries
+      = Backoff.joinRetries := rfl
+  have hr : (Backoff.new Backoff.joinRetries Backoff.joinMinBackoff Backoff.joinMaxBackoff).retries ≠ 0 := by
+    decide
+  obtain ⟨b1, b2, b3⟩ := Backoff.joinFrom_bounds _ hr (by rw [hb0]; omega) as 0 [] none
+  refine ⟨?_, ?_, b3, ?_⟩
+  · show (Backoff.joinFrom _ as 0 [] none).attempts ≤ _
+    rw [hb0, hbr] at b2; omega
+  · show (Backoff.joinFrom _ as 0 [] none).attempts ≤ _
+    omega
+  · intro fails a rest e hf hlen
+    subst e
+    obtain ⟨b', hrun, j1, j2, j3⟩ := Backoff.joinFrom_after_prefix _ hr fails hf
+      (by rw [hb0, hbr]; omega) a rest 0 [] none
+    have hlenw := Backoff.length_joinPrefixWaits
+      (Backoff.new Backoff.joinRetries Backoff.joinMinBackoff Backoff.joinMaxBackoff) fails
+    refine ⟨?_, ?_, ?_, ?_⟩
+    · intro hok
+      have : Backoff.joinOnStartup (fails ++ a :: rest) = _ := j1 hok
+      rw [this]; exact ⟨rfl, by simp, by simp [hlenw]⟩
+    · intro hok hfull
+      have : Backoff.joinOnStartup (fails ++ a :: rest) = _ := j2 hok (by rw [hb0, hbr]; omega)
+      rw [this]
+      have hne : fails ≠ [] := by
+        intro e; rw [e] at hfull; simp [Backoff.joinRetries] at hfull
+      refine ⟨?_, by simp; omega, by simp [hlenw]; omega⟩
+      simp only [hne, if_false]
+      congr 2; omega
+    · intro hok hle hw
+      have : Backoff.joinOnStartup (fails ++ a :: rest) = _ := j3 hok (by rw [hb0, hbr]; omega) hw
+      rw [this]
+      exact ⟨by simp, by simp, by simp [hlenw]⟩
+    · intro k w hk hlt
+      -- the first `fails.length` waits are the prefix run, whatever `a` does
+      have hpre : (Backoff.joinOnStartup (fails ++ a :: rest)).waits[k]? =
+          (Backoff.joinPrefixWaits (Backoff.new Backoff.joinRetries Backoff.joinMinBackoff
+            Backoff.joinMaxBackoff) fails)[k]? := by
+        obtain ⟨b'', _, h2⟩ := Backoff.joinFrom_prefix
+          (Backoff.new Backoff.joinRetries Backoff.joinMinBackoff Backoff.joinMaxBackoff) fails hf
+          (Or.inr (by rw [hb0, hbr]; omega)) (a :: rest) 0 [] none
+        have h2' : Backoff.joinOnStartup (fails ++ a :: rest) = _ := h2
+        rw [h2']
+        -- one more step of `joinFrom` only appends to the waits
+        have happ : ∀ (b : Backoff.St) (n : Nat) (ws : List Nat) (le : Option Nat),
+            ∃ tl, (Backoff.joinFrom b (a :: rest) n ws le).waits = ws ++ tl := by
+          intro b n ws le
+          have gen : ∀ (as : List Backoff.JoinAttempt) (b : Backoff.St) (n : Nat) (ws : List Nat)
+              (le : Option Nat), ∃ tl, (Backoff.joinFrom b as n ws le).waits = ws ++ tl := by
+            intro as
+            induction as with
+            | nil => intro b n ws le; exact ⟨[], by simp [Backoff.joinFrom]⟩
+            | cons x xs ih =>
+              intro b n ws le
+              simp only [Backoff.joinFrom]
+              cases x.ok
+              · simp only [Bool.false_eq_true, if_false]
+                cases Backoff.step b (Backoff.jitterWait b x.jitter) with
+                | abort => exact ⟨[], by simp⟩
+                | outOfRange _ _ => exact ⟨[], by simp⟩
+                | retry w b2 =>
+                  cases x.cancelInWait
+                  · simp only [Bool.false_eq_true, if_false]
+                    obtain ⟨tl, htl⟩ := ih b2 (n + 1) (ws ++ [w]) (some n)
+                    exact ⟨w :: tl, by rw [htl]; simp⟩
+                  · exact ⟨[w], by simp⟩
+              · exact ⟨[], by simp⟩
+          exact gen (a :: rest) b n ws le
+        obtain ⟨tl, htl⟩ := happ b'' (0 + fails.length) ([] ++ Backoff.joinPrefixWaits _ fails) _
+        rw [htl, List.nil_append, List.getElem?_append_left (by rw [hlenw]; exact hlt)]
+      rw [hpre] at hk
+      have hinv := Backoff.inv_new Backoff.joinRetries Backoff.joinMinBackoff Backoff.joinMaxBackoff
+      have hmin : 0 < (Backoff.new Backoff.joinRetries Backoff.joinMinBackoff Backoff.joinMaxBackoff).min := by
+        decide
+      have hle : (Backoff.new Backoff.joinRetries Backoff.joinMinBackoff Backoff.joinMaxBackoff).min ≤
+          (Backoff.new Backoff.joinRetries Backoff.joinMinBackoff Backoff.joinMaxBackoff).max := by decide
+      have hbase : Backoff.base (Backoff.new Backoff.joinRetries Backoff.joinMinBackoff Backoff.joinMaxBackoff)
+          = Backoff.joinMinBackoff := by decide
+      have h1 := Backoff.runWaits_nth_ge _ b' _ Backoff.joinMinBackoff hinv hmin hle
+        (by rw [hbase]; exact Nat.min_le_right _ _) hrun k w hk
+      have h2 := Backoff.runWaits_le _ b' _ hrun w (List.mem_of_getElem? hk)
+      exact ⟨h1, h2⟩
+
+/-- **The backoff parameters of the model are the literals of the source** (re-extracted on
+every run by `harness/cmd/facts/facts_backoff.go`): `JoinOnStartup` calls
+`backoff.New(5, time.Second, time.Minute)`; `Upstream.connect` calls `backoff.New(0, min, max)` -
+retry for ever - with the defaults 100 ms / 15 s; `websocket.Dial` wraps exactly the statuses
+408, 429, 500, 502, 503, 504 as retryable.  Changing one of these literals breaks this theorem. -/
+theorem C18_facts_backoff :
+    Facts.joinBackoffArgs =
+      some [Backoff.joinRetries, Backoff.joinMinBackoff, Backoff.joinMaxBackoff] ∧
+    Facts.connectBackoffRetries = some 0 ∧
+    (∀ r, Facts.connectBackoffRetries = some r → ∀ c as,
+      Backoff.connect c as = Backoff.connectFrom (Backoff.new r c.min c.max) as 0 [] 0) ∧
+    Facts.connectDefaultBackoffs =
+      some [Backoff.defaultMinReconnectBackoff, Backoff.defaultMaxReconnectBackoff] ∧
+    (Backoff.Conf.min {} = Backoff.defaultMinReconnectBackoff ∧
+      Backoff.Conf.max {} = Backoff.defaultMaxReconnectBackoff) ∧
+    Facts.retryableStatusCodes = some Backoff.retryableStatusCodes ∧
+    Backoff.retryableStatusCodes = [408, 429, 500, 502, 503, 504] := by
+  refine ⟨by decide, by decide, ?_, by decide, ⟨by decide, by decide⟩, by decide, rfl⟩
+  intro r hr c as
+  have h0 : Facts.connectBackoffRetries = some 0 := by decide
+  rw [h0] at hr
+  cases hr
+  rfl
+
+/-! ### non-vacuity (backoff) -/
+
+/-- the production reconnect backoff (100 ms … 15 s, for ever): a run of 10 granted waits, each
+the un-jittered value or a jittered one; the un-jittered value doubles from 100 ms and is 15 s from
+the 9th wait on (`15 s ≤ 100 ms · 2^8`) -/
+example :
+    let s := Backoff.new 0 100000000 15000000000
+    let ws := [100000000, 205000000, 410000000, 902000000, 1804000001, 3608000002,
+      7216000004, 14432000008, 15000000000, 16500000001]
+    (Backoff.runWaits s ws).map (fun s' => (s'.attempts, s'.last, Backoff.base s')) =
+      some (10, 16500000001, 15000000000) ∧
+    Backoff.runWaits s [100000000, 199999999] = none ∧      -- below twice the last wait
+    Backoff.runWaits s [110000002] = none ∧                 -- more than 10 % (+1) above
+    0 < s.min ∧ s.min ≤ s.max := by
+  decide
+
+example : Backoff.Inv (Backoff.new 0 100000000 15000000000) := Backoff.inv_new _ _ _
+
+/-- `New(5, 1 s, 1 min)`: six calls are granted, the seventh and all later ones abort -/
+example :
+    let s := Backoff.new 5 1000000000 60000000000
+    (Backoff.outcomes s [1000000000, 2000000000, 4000000000, 8000000000, 16000000000, 32000000000,
+        60000000000, 60000000000]).map
+      (fun o => match o with | .retry w _ => some w | _ => none) =
+      [some 1000000000, some 2000000000, some 4000000000, some 8000000000, some 16000000000,
+       some 32000000000, none, none] ∧
+    (Backoff.outcomes s [1000000000, 2000000000, 4000000000, 8000000000, 16000000000, 32000000000,
+        60000000000, 60000000000]).drop 6 = [.abort, .abort] := by
+  decide
+
+/-- `connect`: two refused dials and a 503, then the node is back; a 401 ends it; a cancelled
+context ends it; three refused dials leave it retrying with waits 1 ms, 2 ms, 4 ms -/
+example :
+    let c : Backoff.Conf := { minReconnectBackoff := 1000000, maxReconnectBackoff := 5000000 }
+    Backoff.connect c [{ dial := .noResponse }, { dial := .noResponse }, { dial := .status 503 },
+        { dial := .ok }, { dial := .noResponse }] =
+      ⟨.connected, 4, [1000000, 2000000, 4000000], 0⟩ ∧
+    Backoff.connect c [{ dial := .noResponse }, { dial := .status 401 }, { dial := .ok }] =
+      ⟨.errPermanent 401, 2, [1000000], 0⟩ ∧
+    Backoff.connect c [{ dial := .status 500 }, { dial := .noResponse, cancelInWait := true },
+        { dial := .ok }] = ⟨.errCtx, 2, [1000000, 2000000], 0⟩ ∧
+    Backoff.connect c [{ dial := .noResponse, ctxErr := true }] = ⟨.errCtx, 1, [], 0⟩ ∧
+    Backoff.connect c [{ dial := .noResponse }, { dial := .noResponse, jitter := 100001 },
+        { dial := .noResponse }, { dial := .noResponse }] =
+      ⟨.stillRetrying, 4, [1000000, 2100001, 4200002, 5000000], 0⟩ ∧
+    (Backoff.connect {} [{ dial := .status 502 }]).waits = [100000000] := by
+  decide
+
+/-- `JoinOnStartup`: seven failed joins → the error of join 5 (0-based) after 6 waits; an eighth
+attempt is never made; success at the third join -/
+example :
+    let f : Backoff.JoinAttempt := { ok := false }
+    Backoff.joinOnStartup [f, f, f, f, f, f, f, f, { ok := true }] =
+      ⟨.err (some 5), 7, [1000000000, 2000000000, 4000000000, 8000000000, 16000000000,
+        32000000000]⟩ ∧
+    Backoff.joinOnStartup [f, f, { ok := true }, f] = ⟨.joined, 3, [1000000000, 2000000000]⟩ ∧
+    Backoff.joinOnStartup [f, { ok := false, cancelInWait := true }, { ok := true }] =
+      ⟨.err (some 1), 2, [1000000000, 2000000000]⟩ ∧
+    Backoff.joinOnStartup [f, f, f] =
+      ⟨.stillRetrying, 3, [1000000000, 2000000000, 4000000000]⟩ := by
+  decide
 
 end Piko
